@@ -3,10 +3,15 @@
 //
 // Generated routing tables (blacklist entries, rewriters, mocked aggregations
 // that never flush — some drop-raw —, capture routes and real carbon routes of
-// all three types built from admin command strings) are driven with generated
-// lines over a small alphabet so that filters overlap. Real destinations point
-// at refusing loopback ports with spool=false and a one-hour reconnect period,
-// so each hand-off shows exactly once in the destination's
+// all three types) are driven with generated lines over a small alphabet so
+// that filters overlap. A share of the blacklist entries, rewriters and real
+// routes is created from admin command strings (imperatives.Apply), the rest
+// through the constructors those commands call with the commands' defaults
+// (every command recompiles the whole token grammar, ~0.1-1 s under -race).
+// Real destinations point at refusing loopback ports (127.0.x.y, ports 1-5:
+// below the ephemeral range, so no other process can be handed the port and a
+// connect() cannot meet itself) with spool=false and a one-hour reconnect
+// period, so each hand-off shows exactly once in the destination's
 // action=drop.reason=conn_down_no_spool counter.
 //
 // Observation points: Route.Dispatch calls on capture routes (registered with
